@@ -43,7 +43,7 @@ func RunFiles(a *hlib.Args, e *hlib.Emitter, classes []string, stream uint64) er
 			cs = append(cs, c)
 		}
 	}
-	if err := BuildAll(cs, a.Scratch, 8); err != nil {
+	if err := BuildAll(cs, a.Scratch, 12); err != nil {
 		return err
 	}
 	for _, c := range cs {
@@ -102,8 +102,6 @@ func unrelatedMaps(g2 *Gen, k int) {
 		}
 	}
 }
-
-func isMapLine(l Line) bool { return l.Kind == "%" || l.Kind == "M" || l.Kind == "8" }
 
 // ForeignEdit derives the edited file: foreign-location rows added at declared names, zone
 // apexes, NS targets and lexicographic neighbours; foreign-tagged lines deleted or replaced.
@@ -209,6 +207,23 @@ func RunPairs(a *hlib.Args, e *hlib.Emitter, stream uint64) error {
 				nq = 40
 			}
 			qs := GenQueries(g, nq)
+			// queries carrying a client-subnet option whose address lies inside the unrelated subnets
+			for k := 0; k < 5 && len(g.Names) > 0; k++ {
+				nm := append(Name{}, g.Names[r.Intn(len(g.Names))]...)
+				if r.Chance(1, 3) {
+					nm = nm.Child(g.label())
+				}
+				e := Ecs([]string{"192.0.2.7", "198.51.100.9", "192.0.2.200", "203.0.113.3", "2001:db8:ffff::1"}[r.Intn(5)], 0, 0)
+				if e.Family == 1 {
+					e.SourceNetmask = uint8([]int{24, 32, 25}[r.Intn(3)])
+				} else {
+					e.SourceNetmask = uint8([]int{48, 64, 128}[r.Intn(3)])
+				}
+				w, err := PackQuery(QSpec{Name: nm, Type: []int{1, 28, 16, 2, 255}[r.Intn(5)], Class: 1, ID: r.Intn(65536), Edns: true, Size: 1232, Opts: []dns.EDNS0{e}})
+				if err == nil {
+					qs = append(qs, Query{Wire: w, Client: Clients[r.Intn(len(Clients))], Max: 1, Class_: "ecs-unrelated"})
+				}
+			}
 			p := &PairCase{Class: class,
 				Before: &FileCase{Class: class, Mtime: g.Mtime, Lines: before, Queries: qs},
 				After:  &FileCase{Class: class, Mtime: g.Mtime, Lines: after, Queries: append([]Query{}, qs...)}}
@@ -227,7 +242,7 @@ func RunPairs(a *hlib.Args, e *hlib.Emitter, stream uint64) error {
 		}
 		cs = append(cs, p.Before, p.After)
 	}
-	if err := BuildAll(cs, a.Scratch, 8); err != nil {
+	if err := BuildAll(cs, a.Scratch, 12); err != nil {
 		return err
 	}
 	for _, p := range ps {
